@@ -37,6 +37,13 @@ macro_rules! vassume {
     };
 }
 
+/// One shared reachability witness for harnesses with several exits (a cover is a property per
+/// source location; calling this from every exit makes it one property).
+#[inline(never)]
+pub fn reached_end() {
+    vcover!(true, "harness ran to one of its ends");
+}
+
 // ---- Kani stubs (formatting only) -------------------------------------------------
 pub fn stub_format(_a: std::fmt::Arguments<'_>) -> String {
     String::new()
